@@ -279,6 +279,7 @@ def check(prog, rep):
     # ------------------------------------------------------------------ R6
     rule_peptide_pointers(prog, rep, t)
     rule_completion_reads_occupied(prog, rep)
+    rep.guarded(rule_water_completion, prog, rep)
 
 
 def rule_peptide_pointers(prog, rep, t, rid="R6"):
@@ -564,3 +565,116 @@ def nearest_bonds(ref, atomname):
                     out.append(b)
         frontier = nxt
     return out
+
+
+def rule_water_completion(prog, rep):
+    """Water.finalize (the last step for every water) is evaluated on model waters: the oxygen with every combination of H1 / LP1 / LP2
+    already present, under scripted neighbourhoods (a closest atom exists at every query / at none / alternately; the distances reported
+    grow / shrink / alternate).  Positions are abstract points: every geometric helper returns a new point, a rotation sends each atom it
+    moves to a new point.  On every run the water must end with H1 and H2, and no two atoms of the residue at the same point."""
+    import itertools
+
+    import sympy as sp
+    from ..guards import Flow, Obj
+    from ..objinterp import ObjRunner
+    r = rep.rule("R9", "water completion: both hydrogens are built and no two atoms of the water share a position, on every path", floor=8)
+    fi = prog.func("hydrogens/structures.py", "Water.finalize")
+    where = f"pdb2pqr/hydrogens/structures.py:{fi.node.lineno} (Water.finalize)"
+    coords = {"coords": lambda a_: [a_["x"], a_["y"], a_["z"]]}
+    n_runs = 0
+    bad = {}
+    for present in itertools.chain.from_iterable(itertools.combinations(("H1", "LP1", "LP2"), k) for k in range(4)):
+        for near_script, dist_script in itertools.product(("always", "never", "alternate", "alternate-from-none"), ("growing", "shrinking", "alternating")):
+            counter = {"pt": 0, "near": 0, "dist": 0}
+
+            def fresh(tag, counter=counter):
+                counter["pt"] += 1
+                return [sp.Symbol(f"{tag}{counter['pt']}_{ax}") for ax in "xyz"]
+
+            def atom(name, res, pos):
+                return Obj({"__class__": "Atom", "name": name, "x": pos[0], "y": pos[1], "z": pos[2], "bonds": [], "residue": res, "reference": None,
+                            "element": name[0], "added": 0, "cell": None, "res_name": "HOH", "chain_id": "A", "res_seq": 7, "ins_code": "",
+                            "type": "HETATM", "__props__": coords})
+
+            refmap = {"O": Obj({"__class__": "DefinitionAtom", "name": "O", "bonds": ["H1", "H2"], "coords": fresh("T")}),
+                      "H1": Obj({"__class__": "DefinitionAtom", "name": "H1", "bonds": ["O"], "coords": fresh("T")}),
+                      "H2": Obj({"__class__": "DefinitionAtom", "name": "H2", "bonds": ["O"], "coords": fresh("T")})}
+            res = Obj({"__class__": "WAT", "name": "HOH", "atoms": [], "map": {}, "fixed": 0, "chain_id": "A", "res_seq": 7, "ins_code": "",
+                       "reference": Obj({"__class__": "DefinitionResidue", "name": "WAT", "map": refmap})})
+            oxy = atom("O", res, fresh("O"))
+            res["atoms"].append(oxy)
+            res["map"]["O"] = oxy
+            for nm in present:
+                a = atom(nm, res, fresh(nm))
+                res["atoms"].append(a)
+                res["map"][nm] = a
+                a["bonds"].append(oxy)
+                oxy["bonds"].append(a)
+            neighbour = atom("CA", Obj({"__class__": "ALA", "name": "ALA"}), fresh("N"))
+            routines = Obj({"__class__": "<routines>", "cells": Obj({"__class__": "<cells>"})})
+            wat = Obj({"__class__": "Water", "residue": res, "routines": routines, "optinstance": None, "atomlist": [], "hbonds": []})
+
+            def extra(runner, interp, call, args, kw, counter=counter, res=res, neighbour=neighbour, near_script=near_script, dist_script=dist_script):
+                nm = U(call.func)
+                f_ = call.func
+                if nm.endswith("find_coordinates"):
+                    return fresh("P")
+                if nm in ("struct.Atom", "Atom", "structures.Atom") and len(args) == 3:
+                    src = args[0]
+                    new = Obj({k: v for k, v in src.items() if k != "__props__"})
+                    new["__props__"] = coords
+                    new["bonds"], new["reference"], new["residue"], new["type"], new["cell"], new["added"] = [], None, args[2], args[1], None, 0
+                    return new
+                if isinstance(f_, ast.Attribute):
+                    if f_.attr in ("add_cell", "remove_cell"):
+                        return None
+                    if f_.attr == "get_closest_atom":
+                        counter["near"] += 1
+                        k = counter["near"]
+                        there = {"always": True, "never": False, "alternate": k % 2 == 1, "alternate-from-none": k % 2 == 0}[near_script]
+                        return neighbour if there else None
+                    if f_.attr == "get_positions_with_two_bonds":
+                        return [fresh("Q"), fresh("Q")]
+                    if f_.attr == "get_position_with_three_bonds":
+                        return fresh("Q")
+                    if f_.attr == "rotate_tetrahedral" and len(args) == 3:
+                        pivot, centre = args[0], args[1]
+                        for b in centre["bonds"]:
+                            if b is not pivot:
+                                b["x"], b["y"], b["z"] = fresh("R")
+                        return None
+                if nm in ("util.distance", "distance") and len(args) == 2:
+                    counter["dist"] += 1
+                    k = counter["dist"]
+                    return {"growing": 2.0 + 0.01 * k, "shrinking": 4.0 - 0.01 * k, "alternating": 3.0 + (0.5 if k % 2 else -0.5) - 0.001 * k}[dist_script]
+                if nm in ("util.subtract", "subtract") and len(args) == 2:
+                    return [a - b for a, b in zip(args[0], args[1])]
+                if nm in ("util.add", "add") and len(args) == 2:
+                    return [a + b for a, b in zip(args[0], args[1])]
+                return NotImplemented
+
+            run = ObjRunner(prog, "hydrogens/structures.py", extra_hook=extra, depth_limit=40)
+            label = f"{'+'.join(present) or 'bare oxygen'}"
+            try:
+                run.call(wat, "finalize")
+            except Flow as fl:
+                bad.setdefault(label, f"finalize stops with {fl.value} (closest atom {near_script}, distances {dist_script})")
+                n_runs += 1
+                continue
+            n_runs += 1
+            names = [a["name"] for a in res["atoms"]]
+            problem = None
+            if "H1" not in names or "H2" not in names or len(set(names)) != len(names):
+                problem = f"the water ends with atoms {names}"
+            else:
+                for a, b in itertools.combinations(res["atoms"], 2):
+                    if all(sp.simplify(sp.sympify(a[k]) - sp.sympify(b[k])) == 0 for k in "xyz"):
+                        problem = f"{a['name']} and {b['name']} end at the same point {a['x']}"
+                        break
+            if problem:
+                bad.setdefault(label, f"{problem} (closest atom {near_script}, distances {dist_script})")
+    for present in itertools.chain.from_iterable(itertools.combinations(("H1", "LP1", "LP2"), k) for k in range(4)):
+        label = f"{'+'.join(present) or 'bare oxygen'}"
+        r.add(f"water|{label}", label not in bad, f"water starting with {label}: " + (bad.get(label) or "H1 and H2 present, all positions distinct under the "
+              "12 scripted neighbourhoods"), where)
+    r.info["model_runs"] = n_runs
